@@ -4,6 +4,7 @@
   a counter) against the set of slots currently held.
 -/
 import NextestModel.Model.Sched
+import NextestModel.Thm.C08
 namespace NextestModel.C14
 open NextestModel.Sched
 
@@ -131,6 +132,246 @@ theorem release_keeps_invariant (held : List Nat) (s : Slots) (slot : Nat) (h : 
 
 /-- no two alive tests ever share a slot: immediate from the invariant -/
 theorem held_slots_distinct (held : List Nat) (s : Slots) (h : SlotsInv held s) : held.Nodup := h.1
+
+/-! ## Lifting to the scheduler: the global slots of the running futures -/
+
+theorem slotsInv_perm (h1 h2 : List Nat) (s : Slots) (hp : h2.Perm h1) (h : SlotsInv h1 s) : SlotsInv h2 s := by
+  obtain ⟨a, b, c, d, e⟩ := h
+  refine ⟨hp.nodup_iff.mpr a, b, ?_, d, ?_⟩
+  · intro x hx; exact c x (hp.mem_iff.mp hx)
+  · intro x hx; rcases e x hx with h | h
+    · exact Or.inl (hp.mem_iff.mpr h)
+    · exact Or.inr h
+
+/-- pigeonhole: if every number below `r` occurs in a duplicate-free list, the list has at least `r` elements -/
+theorem le_length_of_all_below (r : Nat) : ∀ (l : List Nat), l.Nodup → (∀ y, y < r → y ∈ l) → r ≤ l.length := by
+  induction r with
+  | zero => intro l _ _; exact Nat.zero_le _
+  | succ r ih =>
+    intro l hn h
+    have hr : r ∈ l := h r (Nat.lt_succ_self r)
+    have := ih (l.erase r) (hn.erase r) (fun y hy => (List.mem_erase_of_ne (by omega)).mpr (h y (by omega)))
+    rw [List.length_erase_of_mem hr] at this
+    have hpos : 0 < l.length := List.length_pos_of_mem hr
+    omega
+
+/-- the slots held by the futures alive right now -/
+def held (s : SState) : List Nat := s.running.map (·.globalSlot)
+
+/-- the scheduler-level invariant: the allocator's invariant against the running futures' slots, the weight accounting, and
+    every held slot below the thread count -/
+structure SchedInv (s : SState) : Prop where
+  slots : SlotsInv (held s) s.slots
+  acct : s.cur = (s.running.map fun r => min r.item.weight s.maxW).sum
+  posRunning : ∀ r ∈ s.running, 1 ≤ r.item.weight
+  posPending : ∀ it ∈ s.pending, 1 ≤ it.weight
+  posQueued : ∀ g, ∀ it ∈ s.queues.getD g [], 1 ≤ it.weight
+  below : ∀ r ∈ s.running, r.globalSlot < s.maxW
+  maxPos : 1 ≤ s.maxW
+  curLe : s.cur ≤ s.maxW
+
+private theorem sum_ge_length (l : List Running) (m : Nat) (hm : 1 ≤ m) (h : ∀ r ∈ l, 1 ≤ r.item.weight) :
+    l.length ≤ (l.map fun r => min r.item.weight m).sum := by
+  induction l with
+  | nil => simp
+  | cons a as ih =>
+    have ha := h a (by simp)
+    have := ih (fun r hr => h r (by simp [hr]))
+    simp only [List.map_cons, List.sum_cons, List.length_cons]
+    have : 1 ≤ min a.item.weight m := by omega
+    omega
+
+private theorem start_facts (s : SState) (it : Item) :
+    (s.start it).1.maxW = s.maxW ∧ (s.start it).1.cur = s.cur + min it.weight s.maxW ∧
+    (s.start it).1.running = s.running ++ [(s.start it).2] ∧ (s.start it).2.item = it ∧
+    (s.start it).1.pending = s.pending ∧ (s.start it).1.queues = s.queues ∧
+    (s.start it).2.globalSlot = s.slots.reserve.1 ∧ (s.start it).1.slots = s.slots.reserve.2 := by
+  unfold SState.start
+  cases it.group <;> simp
+
+/-- **starting a test**: it gets the least slot no alive test holds, distinct from all of theirs and below the thread count -/
+theorem start_inv (s : SState) (it : Item) (h : SchedInv s) (hw : 1 ≤ it.weight)
+    (hs : hasSpace s.cur s.maxW it.weight = true) :
+    SchedInv (s.start it).1 ∧ (s.start it).2.globalSlot ∉ held s ∧ (∀ y, y < (s.start it).2.globalSlot → y ∈ held s) := by
+  obtain ⟨f1, f2, f3, f4, f5, f6, f7, f8⟩ := start_facts s it
+  obtain ⟨r1, r2, r3⟩ := reserve_is_least_free (held s) s.slots h.slots
+  have hsp : s.cur + min it.weight s.maxW ≤ s.maxW := by simp [hasSpace] at hs; omega
+  have hlen : s.running.length ≤ s.cur := by rw [h.acct]; exact sum_ge_length s.running s.maxW h.maxPos h.posRunning
+  have hslot : s.slots.reserve.1 ≤ (held s).length := le_length_of_all_below _ _ h.slots.1 r2
+  have hbelow : s.slots.reserve.1 < s.maxW := by
+    have : (held s).length = s.running.length := by simp [held]
+    have : 1 ≤ min it.weight s.maxW := by have := h.maxPos; omega
+    omega
+  refine ⟨?_, by rw [f7]; exact r1, by rw [f7]; exact r2⟩
+  refine ⟨?_, ?_, ?_, ?_, ?_, ?_, by rw [f1]; exact h.maxPos, by rw [f1, f2]; exact hsp⟩
+  · have hheld : held (s.start it).1 = held s ++ [s.slots.reserve.1] := by simp [held, f3, f7]
+    rw [hheld, f8]
+    exact slotsInv_perm _ _ _ (by simpa using List.perm_append_comm (l₁ := held s) (l₂ := [s.slots.reserve.1])) r3
+  · rw [f2, f3, f1, h.acct]; simp [f4]
+  · intro r hr; rw [f3] at hr
+    rcases List.mem_append.mp hr with hr | hr
+    · exact h.posRunning r hr
+    · simp at hr; subst hr; rw [f4]; exact hw
+  · rw [f5]; exact h.posPending
+  · rw [f6]; exact h.posQueued
+  · intro r hr; rw [f3] at hr; rw [f1]
+    rcases List.mem_append.mp hr with hr | hr
+    · exact h.below r hr
+    · simp at hr; subst hr; rw [f7]; exact hbelow
+
+private theorem getD_setAt {α} (l : List α) (i j : Nat) (v d : α) :
+    (setAt l i v).getD j d = if i = j ∧ i < l.length then v else l.getD j d := by
+  simp only [setAt, List.getD_eq_getElem?_getD, List.getElem?_set]
+  by_cases h : i = j
+  · subst h
+    by_cases hl : i < l.length
+    · simp [hl]
+    · simp [hl]
+  · simp [h]
+
+private theorem pull_inv (fuel : Nat) : ∀ (s : SState), SchedInv s → SchedInv (s.pull fuel).1 := by
+  induction fuel with
+  | zero => intro s h; exact h
+  | succ f ih =>
+    intro s h
+    simp only [SState.pull]
+    split
+    · exact h
+    · rename_i it rest hp
+      split
+      · exact h
+      · rename_i hsp
+        have hsp' : hasSpace s.cur s.maxW it.weight = true := by
+          cases hh : hasSpace s.cur s.maxW it.weight <;> simp_all
+        have hw : 1 ≤ it.weight := h.posPending it (by rw [hp]; simp)
+        have hs1 : SchedInv { s with pending := rest } :=
+          { h with posPending := fun x hx => h.posPending x (by rw [hp]; simp [hx]) }
+        split
+        · exact ih _ (start_inv { s with pending := rest } it hs1 hw hsp').1
+        · rename_i g hg
+          split
+          · exact ih _ (start_inv { s with pending := rest } it hs1 hw hsp').1
+          · have hq' : ∀ g', ∀ x ∈ (setAt s.queues g (s.queues.getD g [] ++ [it])).getD g' [], 1 ≤ x.weight := by
+              intro g' x hx
+              simp only [getD_setAt] at hx
+              split at hx
+              · rcases List.mem_append.mp hx with hx | hx
+                · exact h.posQueued g x hx
+                · simp at hx; subst hx; exact hw
+              · exact h.posQueued g' x hx
+            exact ih _ { hs1 with posQueued := hq' }
+
+private theorem drain_inv (g : Nat) (fuel : Nat) : ∀ (s : SState), SchedInv s → SchedInv (s.drainGroup g fuel).1 := by
+  induction fuel with
+  | zero => intro s h; exact h
+  | succ f ih =>
+    intro s h
+    simp only [SState.drainGroup]
+    split
+    · exact h
+    · rename_i it rest hqg
+      split
+      · rename_i hsp
+        simp only [Bool.and_eq_true] at hsp
+        have hw : 1 ≤ it.weight := h.posQueued g it (by rw [hqg]; simp)
+        have hq' : ∀ g', ∀ x ∈ (setAt s.queues g rest).getD g' [], 1 ≤ x.weight := by
+          intro g' x hx
+          simp only [getD_setAt] at hx
+          split at hx
+          · exact h.posQueued g x (by rw [hqg]; simp [hx])
+          · exact h.posQueued g' x hx
+        have hs1 : SchedInv { s with queues := setAt s.queues g rest } := { h with posQueued := hq' }
+        exact ih _ (start_inv { s with queues := setAt s.queues g rest } it hs1 hw hsp.1).1
+      · exact h
+
+private theorem map_eraseP (l : List Running) (p : Running → Bool) (x : Running) (hf : l.find? p = some x)
+    (hnd : (l.map (·.globalSlot)).Nodup) : (l.eraseP p).map (·.globalSlot) = (l.map (·.globalSlot)).erase x.globalSlot := by
+  induction l with
+  | nil => simp at hf
+  | cons a as ih =>
+    by_cases hp : p a = true
+    · simp [List.find?_cons, hp] at hf; subst hf
+      simp [List.eraseP_cons, hp]
+    · simp [List.find?_cons, hp] at hf
+      have hx : x.globalSlot ∈ as.map (·.globalSlot) := List.mem_map.mpr ⟨x, List.mem_of_find?_eq_some hf, rfl⟩
+      simp only [List.map_cons, List.nodup_cons] at hnd
+      have hne : a.globalSlot ≠ x.globalSlot := fun e => hnd.1 (e ▸ hx)
+      simp [List.eraseP_cons, hp, ih hf hnd.2, List.erase_cons, hne]
+
+private theorem sum_eraseP' (l : List Running) (p : Running → Bool) (f : Running → Nat) (x : Running)
+    (h : l.find? p = some x) : (l.map f).sum = ((l.eraseP p).map f).sum + f x := by
+  induction l with
+  | nil => simp at h
+  | cons a as ih =>
+    by_cases hp : p a = true
+    · simp [List.find?_cons, hp] at h
+      subst h
+      simp [List.eraseP_cons, hp]; omega
+    · simp [List.find?_cons, hp] at h
+      simp [List.eraseP_cons, hp, ih h]; omega
+
+/-- **Every operation keeps the slots of concurrently alive tests distinct, least-free and below the thread count.** -/
+theorem sched_inv_step (s : SState) (op : Op) (s' : SState) (started : List Running)
+    (h : SchedInv s) (hstep : s.step op = some (s', started)) : SchedInv s' := by
+  cases op with
+  | poll =>
+    simp only [SState.step, SState.first, Option.some.injEq] at hstep
+    have := pull_inv (s.pending.length + 1) s h
+    rw [hstep] at this; exact this
+  | complete id =>
+    simp only [SState.step, SState.complete] at hstep
+    split at hstep
+    · cases hstep
+    · rename_i r hfind
+      simp only [Option.some.injEq, Prod.mk.injEq] at hstep
+      obtain ⟨hs, _⟩ := hstep
+      rw [← hs]
+      have hmem : r ∈ s.running := List.mem_of_find?_eq_some hfind
+      have hsub : ∀ x ∈ s.running.eraseP (fun x => x.item.id == id), x ∈ s.running := fun x hx => List.mem_of_mem_eraseP hx
+      have hrem : SchedInv { s with running := s.running.eraseP (fun x => x.item.id == id),
+                                    cur := s.cur - min r.item.weight s.maxW,
+                                    slots := s.slots.release r.globalSlot } := by
+        refine ⟨?_, ?_, fun x hx => h.posRunning x (hsub x hx), h.posPending, h.posQueued, fun x hx => h.below x (hsub x hx), h.maxPos, by have := h.curLe; simp only; omega⟩
+        · have := release_keeps_invariant (held s) s.slots r.globalSlot h.slots (List.mem_map.mpr ⟨r, hmem, rfl⟩)
+          simp only [held] at this ⊢
+          rw [map_eraseP s.running _ r hfind h.slots.1]; exact this
+        · have hsum := sum_eraseP' s.running (fun x => x.item.id == id) (fun r => min r.item.weight s.maxW) r hfind
+          have := h.acct
+          simp only at hsum ⊢
+          omega
+      split
+      · exact pull_inv _ _ (drain_inv _ _ _ { hrem with })
+      · exact pull_inv _ _ hrem
+
+/-- …hence, for every item list with positive threads-required, at least one test thread, and every order of completions:
+    **no two concurrently alive tests share a global slot, and every slot is below the test-thread count**
+    (`start_inv` adds: each newly started test gets the smallest slot not held by an alive test). -/
+theorem global_slots_distinct_and_below (maxW : Nat) (gm : List Nat) (items : List Item) (ops : List Op) (s' : SState)
+    (hm : 1 ≤ maxW) (hw : ∀ it ∈ items, 1 ≤ it.weight)
+    (h : NextestModel.C08.runOps (SState.init maxW gm items) ops = some s') :
+    (s'.running.map (·.globalSlot)).Nodup ∧ ∀ r ∈ s'.running, r.globalSlot < maxW := by
+  have hinit : SchedInv (SState.init maxW gm items) := by
+    refine ⟨by simpa [held, SState.init] using slots_init, by simp [SState.init], by simp [SState.init], by simpa [SState.init] using hw, ?_, by simp [SState.init], by simpa [SState.init] using hm, by simp [SState.init]⟩
+    intro g it hit
+    have : (gm.map fun _ => ([] : List Item)).getD g [] = [] := by
+      simp only [List.getD_eq_getElem?_getD, List.getElem?_map]
+      cases gm[g]? <;> rfl
+    simp only [SState.init] at hit
+    rw [this] at hit; cases hit
+  suffices hgen : ∀ (ops : List Op) (s : SState), SchedInv s → s.maxW = maxW → NextestModel.C08.runOps s ops = some s' → SchedInv s' ∧ s'.maxW = maxW by
+    obtain ⟨hi, hmw⟩ := hgen ops _ hinit rfl h
+    exact ⟨hi.slots.1, fun r hr => hmw ▸ hi.below r hr⟩
+  intro ops
+  induction ops with
+  | nil => intro s hs hmw h; simp [NextestModel.C08.runOps] at h; subst h; exact ⟨hs, hmw⟩
+  | cons o os ih =>
+    intro s hs hmw h
+    simp only [NextestModel.C08.runOps] at h
+    split at h
+    · cases h
+    · rename_i s1 st hstep
+      have hg : NextestModel.C08.GlobalOk s := ⟨by rw [hs.acct]; rfl, hs.curLe⟩
+      exact ih s1 (sched_inv_step s o s1 st hs hstep) (by rw [(NextestModel.C08.global_weight_step s o s1 st hg hstep).2, hmw]) h
 
 /-! ## Non-vacuity -/
 example : SlotsInv [0, 2] { next := 3, free := [1] } := by
